@@ -199,6 +199,7 @@ COVER_GRAMMARS = [
      ['"a#b" y and more text', '"a#b" x', '"a b" y zz', '"#" ? x', '"a" # c\ny', '"ab" x ?', 'x', '"a#b"']),
     ('start: (WORD | NUM)+\nWORD: /[a-c]+/\nNUM: /[0-9]+/\nIG: /-+[a-c]*/\n%ignore IG\n%ignore " "\n',
      ['ab 12 ?? ab', 'a-b-c ? d', 'ab--c 1 ! 2 3', '--ab ?', 'abc', '?', 'a -- ?? -- b']),
+    ('start: "a" X "b" | "b"+\n%declare X\n%ignore " "\n', ['ab', 'a b', 'b', 'bb a', 'a', 'b b']),
     ('start: A B+\nA: "ab"\nB: "ba" | "b"\nSKIP: /a+b?/\n%ignore SKIP\n',
      ['abba?ba', 'abaab?b', 'ab?', 'abbaa!bb', 'abb']),
 ]
@@ -223,6 +224,10 @@ def cover_case(job):
         else:
             langs[str(t.name)] = enc
     rules = [[str(r.origin.name), [str(x.name) for x in r.expansion]] for r in p.rules]
+    for r in p.rules:
+        for x in r.expansion:
+            if x.is_term and str(x.name) not in langs:
+                langs[str(x.name)] = []          # a %declare'd terminal: no pattern, the dynamic lexers can never match it
     cls, pos = '', -1
     try:
         with O.budget(20):
